@@ -128,11 +128,11 @@ Proof.
   destruct (run_rejected c w); [discriminate|].
   destruct (live_try c (w_hub w) start) as [burst| | |] eqn:El.
   - exfalso. destruct (j_filter c =? 1).
-    + exact (live_fin_fuel_enough fuel c w None burst 0 ps [] (Hlive burst eq_refl) Hr).
+    + exact (live_fin_fuel_enough fuel c w (start_mem c) burst 0 ps [] (Hlive burst eq_refl) Hr).
     + exact (live_fuel_enough fuel c w burst 0 ps [] (Hlive burst eq_refl) Hr).
   - right. right. destruct (jerr_eq_fuel (snd (run_files c start merged_end merged forked))) as [E|E]; [exact E|]. exfalso.
     destruct (j_filter c =? 1).
-    + exact (file_fin_fuel_enough fuel c _ _ w None _ 0 ps [] Hjoin E Hr).
+    + exact (file_fin_fuel_enough fuel c _ _ w (start_mem c) _ 0 ps [] Hjoin E Hr).
     + exact (file_fuel_enough fuel c _ _ w _ 0 ps [] Hjoin E Hr).
   - right. left. reflexivity.
   - left. reflexivity.
